@@ -173,6 +173,19 @@ impl SigBag {
             }
         }
     }
+    /// Merge another bag given as its `to_json()` form.
+    pub fn merge_json(&mut self, bag: &Value) {
+        for e in bag.as_array().map(|a| a.as_slice()).unwrap_or(&[]) {
+            let sig = e["sig"].as_str().unwrap_or("").to_string();
+            let ent = self.map.entry(sig).or_insert((0, Vec::new()));
+            ent.0 += e["count"].as_u64().unwrap_or(1);
+            for r in e["replays"].as_array().map(|a| a.as_slice()).unwrap_or(&[]) {
+                if ent.1.len() < 2 {
+                    ent.1.push(r.clone());
+                }
+            }
+        }
+    }
     pub fn to_json(&self) -> Value {
         Value::Array(
             self.map
